@@ -301,6 +301,42 @@ func runC16(c *Ctx, faults bool) {
 			c.checkLocks(w, locks, users, readOnly, fmt.Sprintf("op %d by %s", i, u.name))
 		}
 	}
+	// epilogue: the same user's lock, but this clone's cache does not know it
+	// (a second clone, a lost cache file): unlock --id must still look at the file
+	if c.Res.Class == "" && t.Bool(1, 3, "unlock-by-id-with-unknown-cache") {
+		u := users[t.Choose(2, "who-epilogue")]
+		var held []string
+		for _, p := range lockPaths {
+			if l, ok := locks.Table[p]; ok && l.Owner.Name == u.name {
+				held = append(held, p)
+			}
+		}
+		sort.Strings(held)
+		if len(held) > 0 {
+			p := held[t.Choose(len(held), "epilogue-path")]
+			id := locks.Table[p].ID
+			full := filepath.Join(u.dir, p)
+			os.Chmod(full, 0644)
+			if f, err := os.OpenFile(full, os.O_APPEND|os.O_WRONLY, 0644); err == nil {
+				fmt.Fprintf(f, "uncommitted edit before unlock --id\n")
+				f.Close()
+			}
+			if isDirty(w, u.dir, p) {
+				cacheFiles, _ := filepath.Glob(filepath.Join(u.dir, ".git", "lfs", "cache", "locks", "*", "lockcache.db"))
+				cacheFiles = append(cacheFiles, filepath.Join(u.dir, ".git", "lfs", "lockcache.db"))
+				for _, cf := range cacheFiles {
+					os.Remove(cf)
+				}
+				evBefore := len(locks.Events)
+				args := []string{"lfs", "unlock", "--id=" + id}
+				w.Git(u.dir, args...)
+				c.Probe("unlock-by-id-with-unknown-cache")
+				if c.sawEvent(locks, evBefore, "released", u.name, p) {
+					c.Violation("unlock-with-uncommitted-changes", "%s: %v (own lock, not in this clone's cache) released the lock although %s has uncommitted changes and --force was not given", u.name, args, p)
+				}
+			}
+		}
+	}
 	if len(locks.Problems) > 0 {
 		c.Probe("lock-api-request-problem")
 		c.Res.APIProblems = locks.Problems
